@@ -56,6 +56,11 @@ pub struct Inner {
     /// kinds of calls seen (in order) when tracing is on
     pub trace: Option<Vec<CallKind>>,
     pub max_len_seen: u64,
+    /// close() itself reports an error (after counting the call)
+    pub fail_close: bool,
+    /// when Some(n): the n-th backend call from now panics (watchdog against operations that
+    /// never terminate, e.g. a compaction that loops forever)
+    pub call_budget: Option<u64>,
 }
 
 #[derive(Clone)]
@@ -157,6 +162,13 @@ impl Inner {
         }
         let idx = self.calls;
         self.calls += 1;
+        if let Some(b) = self.call_budget.as_mut() {
+            if *b == 0 {
+                self.call_budget = None;
+                panic!("harness watchdog: the operation exceeded its backend-call budget (it does not terminate in a bounded number of passes)");
+            }
+            *b -= 1;
+        }
         if let Some((k, mode)) = self.fault_at {
             let hit = match mode {
                 FaultMode::Permanent => idx >= k,
@@ -246,6 +258,9 @@ impl redb::StorageBackend for MemBackend {
         if g.close_calls > 1 {
             let n = g.close_calls;
             g.contract.push(format!("close() called {n} times"));
+        }
+        if g.fail_close {
+            return Err(io::Error::other("injected failure of close()"));
         }
         Ok(())
     }
